@@ -110,7 +110,7 @@ struct AppGuard {
 
 impl Drop for AppGuard {
     fn drop(&mut self) {
-        if self.armed {
+        if self.armed && self.nonce != 0 {
             self.run
                 .obs(self.node, "app.drop", json!({"nonce": self.nonce}));
         }
@@ -162,7 +162,7 @@ impl tower::Service<Request<Bytes>> for AppService {
             .map(|d| format!("{d:?}"));
         run.obs(
             node,
-            "app.start",
+            if nonce == 0 { "app.hostile" } else { "app.start" },
             json!({
                 "nonce": nonce,
                 "peer_seen": peer_seen,
@@ -214,7 +214,7 @@ impl tower::Service<Request<Bytes>> for AppService {
             drop(guard);
             run.obs(
                 node,
-                "app.end",
+                if nonce == 0 { "app.hostile_end" } else { "app.end" },
                 json!({
                     "nonce": nonce,
                     "status": response.status().to_u16(),
